@@ -64,7 +64,9 @@ package owa
 //@ func (*OwaBiasListener).Merge
 //@   property C07 C18 C03
 //@   refines model.BiasListener.Merge with validParams=owaValid, coversId=owaCovers, accepts=owaAccepts, acceptsAny=owaAcceptsAny
-//@   loop 1 invariant [converted] forall q string :: seen(q) ==> exists j int :: 0 <= j && j < len(added) && added[j].Id == q
+//@   ensures [a_single_added_weight_is_taken_as_given] typeis(addition, model.WeightType) ==> forall q string :: q in addition.(model.WeightType).Weights ==>
+//@             exists k int :: 0 <= k && k < len(*result.(owaParams).Weights) && (*result.(owaParams).Weights)[k].Id == q && (*result.(owaParams).Weights)[k].Weight == addition.(model.WeightType).Weights[q]
+//@   loop 1 invariant [converted] forall q string :: seen(q) ==> exists j int :: 0 <= j && j < len(added) && added[j].Id == q && added[j].Weight == addition.(model.WeightType).Weights[q]
 //@   loop 1 invariant [ctx] typeis(addition, model.WeightType) && !typeis(addition, owaParams) && fresh(added) && typeis(params, owaParams) && params.(owaParams).Weights != nil
 
 // ---- the method itself (C03)
@@ -112,6 +114,7 @@ package owa
 // the parsed parameters: every criterion with exactly the weight the request gives it (no sign, no scaling)
 //@ func toArray
 //@   property C03 C20 C07
+//@   ensures [one_entry_per_weight] len(*result) == len(*weights)
 //@   ensures [weights_as_requested] result != nil && fresh(result) && fresh(*result) && forall k int :: 0 <= k && k < len(*criteria) && k < len(*result) ==>
 //@             (*result)[k].Criterion == (*criteria)[k] && (*result)[k].Weight == (*weights)[(*criteria)[k].Id]
 //@   loop 1 invariant [ctx] fresh(result)
@@ -120,7 +123,7 @@ package owa
 // a weight for every declared criterion and no other (count checked), kept in ascending order of weight
 //@ func (*OWAPreferenceFunc).ParseParams
 //@   property C03 C20 C07
-//@   ensures [one_weight_per_criterion_ascending] typeis(result, owaParams) && result.(owaParams).Weights != nil
+//@   ensures [one_weight_per_criterion_ascending] typeis(result, owaParams) && result.(owaParams).Weights != nil && len(*result.(owaParams).Weights) == len(dm.Criteria)
 //@             && forall i int, j int :: 0 <= i && i < j && j < len(*result.(owaParams).Weights) ==> (*result.(owaParams).Weights)[i].Weight <= (*result.(owaParams).Weights)[j].Weight
 //@ func (*OWAPreferenceFunc).Identifier
 //@   property C20 C03
@@ -136,6 +139,7 @@ package owa
 //@ wire owaParams
 //@   property C01 C03 C20
 //@   json Weights=weights
+//@   gotypes Weights=*model.WeightedCriteria
 
 // ---- registered names (what a request must say to select this object; what error messages list)
 //@ func (*OwaBiasListener).Identifier
@@ -162,4 +166,4 @@ package owa
 //@   requires [params] typeis(dmp.MethodParameters, owaParams) && dmp.MethodParameters.(owaParams).Weights != nil
 //@   ensures [one_entry_each] result != nil && len(*result) == len(dmp.ConsideredAlternatives)
 //@   ensures [all_considered_present] forall j int :: 0 <= j && j < len(dmp.ConsideredAlternatives) ==> exists i int :: 0 <= i && i < len(*result) && (*result)[i].Alternative == dmp.ConsideredAlternatives[j]
-//@   ensures [C04 ordered_by_value_then_id] forall i int, j int :: 0 <= i && i < j && j < len(*result) ==> !model.ordered((*result)[j].AlternativeResult, (*result)[i].AlternativeResult)
+//@   ensures [ordered_by_value_then_id] forall i int, j int :: 0 <= i && i < j && j < len(*result) ==> !model.ordered((*result)[j].AlternativeResult, (*result)[i].AlternativeResult)
